@@ -809,7 +809,155 @@ func generate(rng *hx.Rand, thorough bool, jobs chan<- func() string) {
 		jobs <- func() string { return docLine(doc, feats) }
 	}
 
-	// ---- typed structures, directly and inside a multistatus
+	// ---- several readers of ONE captured value, advanced by a schedule
+	// (exhaustive documents of <= 3 nodes and random ones; every pattern of the
+	// family, readers obtained up front and lazily)
+	interDoc := func(doc []byte, r *hx.Rand, all bool) {
+		toks, _, wf := elementTokens(doc)
+		if !wf {
+			return
+		}
+		n := len(toks)            // tokens one reader delivers
+		total := n + 2            // calls per reader: all tokens, then io.EOF twice
+		var pats [][2]interface{} // (readers, schedule)
+		add := func(readers int, sched []int) { pats = append(pats, [2]interface{}{readers, sched}) }
+		// finish: round robin until every reader has made [total] calls
+		finish := func(readers int, sched []int) []int {
+			cnt := make([]int, readers)
+			for _, a := range sched {
+				if a >= 0 {
+					cnt[a]++
+				}
+			}
+			for {
+				done := true
+				for i := 0; i < readers; i++ {
+					if cnt[i] < total {
+						sched = append(sched, i)
+						cnt[i]++
+						done = false
+					}
+				}
+				if done {
+					return sched
+				}
+			}
+		}
+		rep := func(i, k int) []int {
+			l := make([]int, k)
+			for j := range l {
+				l[j] = i
+			}
+			return l
+		}
+		ks := []int{}
+		for k := 0; k <= n+1; k++ {
+			if all || k <= 2 || k >= n-1 || r.Chance(1, 4) {
+				ks = append(ks, k)
+			}
+		}
+		add(2, finish(2, nil))                          // alternate
+		add(3, finish(3, nil))                          // three in turns
+		add(2, append(rep(0, total), rep(1, total)...)) // one after the other
+		{                                               // 2:1
+			var sc []int
+			for i := 0; i < total; i++ {
+				sc = append(sc, 0, 0, 1)
+			}
+			add(2, finish(2, sc[:minInt(len(sc), 3*total/2+3)]))
+		}
+		for _, k := range ks {
+			add(2, finish(2, rep(0, k)))                                                           // the second started after k tokens of the first
+			add(2, append(append(rep(0, k), rep(1, total)...), rep(0, total-minInt(k, total))...)) // ... and drained before the first goes on
+			add(1, finish(1, append(rep(0, k), -1)))                                               // Decode inside a partially drained reader
+			add(2, finish(2, append(append(rep(0, k), 1, -1), 1)))                                 // Decode between two partially drained readers
+		}
+		for j := 0; j < 3; j++ { // three readers nested
+			k1, k2 := r.Intn(n+2), r.Intn(n+2)
+			sc := append(rep(0, k1), rep(1, k2)...)
+			sc = append(sc, rep(2, total)...)
+			sc = append(sc, rep(1, total-k2)...)
+			sc = append(sc, rep(0, total-k1)...)
+			add(3, sc)
+		}
+		for j := 0; j < 3; j++ { // random schedules, with decodes
+			readers := 2 + r.Intn(2)
+			var sc []int
+			for len(sc) < readers*total {
+				if r.Chance(1, 12) {
+					sc = append(sc, -1)
+				} else {
+					sc = append(sc, r.Intn(readers))
+				}
+			}
+			add(readers, finish(readers, sc))
+		}
+		for _, pt := range pats {
+			readers, sched := pt[0].(int), pt[1].([]int)
+			for _, upfront := range []bool{false, true} {
+				upfront := upfront
+				jobs <- func() string { return interLine(doc, readers, upfront, sched) }
+			}
+		}
+	}
+	for n := 1; n <= 3; n++ {
+		for _, nm := range names {
+			for _, kids := range forests(n - 1) {
+				doc, _ := serialize(fixed(0), el(nm[0], nm[1], kids...), true, n%4, false)
+				interDoc(doc, rng, true)
+			}
+		}
+	}
+	for i := 0; i < 150*scale; i++ {
+		tree := genTree(rng, 1+rng.Intn(4), false)
+		doc, _ := serialize(rng, tree, false, 0, rng.Bool())
+		interDoc(doc, rng, false)
+	}
+
+	// ---- documents captured one after the other into ONE variable, a copy
+	// kept after each capture (shrinking, growing, same size), every copy
+	// observed at the end
+	vias := []string{"var", "prop", "propreuse", "resp"}
+	var pool [][]byte // by number of children of the root: 0..3, several shapes each
+	for n := 1; n <= 4; n++ {
+		cnt := 0
+		for _, nm := range names {
+			for _, kids := range forests(n - 1) {
+				cnt++
+				step := map[int]int{3: 20, 4: 100}[n]
+				if thorough {
+					step = map[int]int{3: 7, 4: 25}[n]
+				}
+				if n <= 2 || cnt%step == 0 {
+					doc, _ := serialize(fixed(0), el(nm[0], nm[1], kids...), true, cnt%4, false)
+					pool = append(pool, doc)
+				}
+			}
+		}
+	}
+	for _, via := range vias {
+		via := via
+		for _, d1 := range pool {
+			for _, d2 := range pool {
+				docs := [][]byte{d1, d2}
+				jobs <- func() string { return seqLine(via, docs) }
+			}
+		}
+	}
+	for i := 0; i < 600*scale; i++ {
+		k := 2 + rng.Intn(4)
+		docs := make([][]byte, k)
+		for j := range docs {
+			if rng.Chance(1, 2) {
+				docs[j] = pool[rng.Intn(len(pool))]
+			} else {
+				docs[j], _ = serialize(rng, genTree(rng, 1+rng.Intn(4), false), false, 0, false)
+			}
+		}
+		via := vias[i%len(vias)]
+		jobs <- func() string { return seqLine(via, docs) }
+	}
+
 	for i := 0; i < 8000*scale; i++ {
 		ty := typeNames[i%len(typeNames)]
 		tree := genTyped(rng, ty, reflect.TypeOf(typeTable[ty]()), "", "", 3)
